@@ -3,6 +3,7 @@
 //        c02_replay header <dir>     header + data written with several segment orders read back with equal geometry and values (needs STIR_CONFIG_DIR)
 //        c02_replay visible <dir>    file-backed data, writer kept open: after every write call an independent reader of the file sees the values
 //        c02_replay scale <dir>      on-disk SHORT with scale factor 0.5: every write path stores with the factor the readers multiply with
+//        c02_replay asym             in-memory data with an asymmetric segment range: unique values written bin by bin are all read back
 //        c02_replay paths            values written through one access path are read back through the others, nothing else changes
 // exit 0: property holds on everything tried; exit 1 + "CONFIRMED ..." line: violated
 #include "stir/ProjDataInMemory.h"
@@ -305,12 +306,35 @@ static int scale_paths(const char* dir)
   return 0;
 }
 
+// asymmetric segment ranges (after reduce_segment_range): every bin written with its own value is read back with that value
+static int asym()
+{
+  shared_ptr<ExamInfo> exam(new ExamInfo);
+  const int ranges[][2] = { { -2, 1 }, { 0, 2 }, { -1, 2 }, { -2, 0 } };
+  for (auto& r : ranges)
+    {
+      shared_ptr<ProjDataInfo> info(make_info()->clone());
+      info->reduce_segment_range(r[0], r[1]);
+      ProjDataInMemory pd(exam, info);
+      Ref ref = fill(pd);
+      char what[100];
+      std::snprintf(what, sizeof(what), "ProjDataInMemory with segments [%d,%d] after writing every bin with its own value", r[0], r[1]);
+      if (!snapshot_equal(pd, ref, what)) return 1;
+    }
+  return 0;
+}
+
 int main(int argc, char** argv)
 {
   if (argc < 2) return 2;
   if (!strcmp(argv[1], "header"))
     {
       try { const int rc = header(argc > 2 ? argv[2] : "."); if (!rc) std::printf("REPLAY ok\n"); return rc; }
+      catch (...) { std::printf("exception\n"); return 3; }
+    }
+  if (!strcmp(argv[1], "asym"))
+    {
+      try { const int rc = asym(); if (!rc) std::printf("REPLAY ok\n"); return rc; }
       catch (...) { std::printf("exception\n"); return 3; }
     }
   if (!strcmp(argv[1], "scale"))
